@@ -112,21 +112,14 @@ func findDecision(r *Run, rule string) *decisionSite {
 	return site
 }
 
-// upToDateFactBlock reports whether v is defined under the fact IsReplicaSetUpToDate(...)==true.
+// definedUnderUpToDate reports whether every non-nil value that can reach v is assigned under the
+// fact IsReplicaSetUpToDate(...)==true (the assignment edge is examined, not only the defining
+// block of the assigned value).
 func definedUnderUpToDate(ff *FuncFacts, v ssa.Value) bool {
-	for _, o := range origins(v) {
-		b := blockOf(o)
-		if b == nil {
-			continue
-		}
-		if ff.Holds(b, true, func(c ssa.Value, _ string) bool {
-			_, ok := isCallTo(c, pkgComparison+".IsReplicaSetUpToDate")
-			return ok
-		}) {
-			return true
-		}
-	}
-	return false
+	return assignedOnlyUnder(ff, v, func(c ssa.Value, _ string) bool {
+		_, ok := isCallTo(c, pkgComparison+".IsReplicaSetUpToDate")
+		return ok
+	})
 }
 
 // assignRoles determines which parameter of the decision function is the daemonset, the active
@@ -152,14 +145,9 @@ func assignRoles(r *Run, rule string, s *decisionSite) bool {
 		if p != s.roles["upToDate"] {
 			// the active one is selected under `rs.Name == instance.Status.ActiveReplicaSet`
 			i := paramIndex(p)
-			under := false
-			for _, o := range origins(s.call.Call.Args[i]) {
-				if b := blockOf(o); b != nil && ff.Holds(b, true, func(c ssa.Value, _ string) bool {
-					return isEqCompare(c, loadOfPath(nil, "Name"), loadOfPath(nil, "Status", "ActiveReplicaSet"))
-				}) {
-					under = true
-				}
-			}
+			under := assignedOnlyUnder(ff, s.call.Call.Args[i], func(c ssa.Value, _ string) bool {
+				return isEqCompare(c, loadOfPath(nil, "Name"), loadOfPath(nil, "Status", "ActiveReplicaSet"))
+			})
 			if under {
 				s.roles["active"] = p
 			}
